@@ -42,6 +42,8 @@ func (e unsupported) Error() string { return e.msg }
 
 // Exec verifies one function.
 type Exec struct {
+	paramTerms map[string]bool // interface-typed parameter values (their pointees existed at entry)
+	initWrite bool // heapSet calls that only initialise a fresh allocation (not recorded as loop writes)
 	ck       *Checker
 	fn       *ssa.Function
 	ctr      *FuncContract
@@ -162,10 +164,14 @@ func (x *Exec) run() (err error) {
 	st.entryTop = st.top
 	st.heapTop = map[string]Term{}
 	x.params = map[string]Value{}
+	x.paramTerms = map[string]bool{}
 	for i, p := range fn.Params {
 		v := x.freshValue(st, "p_"+p.Name(), p.Type())
 		st.regs[p] = v
 		x.params[p.Name()] = v
+		if isInterface(p.Type()) && len(v.L) == 1 {
+			x.paramTerms[v.L[0].S] = true
+		}
 		if i == 0 && fn.Signature.Recv() != nil && isPointer(p.Type()) {
 			st.assume(mkNot(mkEq(v.L[0], tZero)))
 			x.note("pointer receiver assumed non-nil")
@@ -450,6 +456,7 @@ func (x *Exec) loopEntry(st *State, li *LoopInfo) {
 func (x *Exec) loopBackEdge(st *State, li *LoopInfo) {
 	st.trace = append(st.trace, li.Header.Index, -2)
 	x.pathEnd(st, "back edge")
+	x.checkHavocSet(st, li)
 	x.evalInvariants(st, li, "inv-step")
 	if li.Spec != nil {
 		for k, c := range li.Spec.Decreases {
@@ -553,7 +560,9 @@ func (x *Exec) havocLoop(st *State, li *LoopInfo) {
 			if at, ok := el.Underlying().(*types.Array); ok {
 				addHeapLeaves("M", at.Elem(), 0, len(flatten(at.Elem())))
 			} else {
+				// a *T may point to an object of its own or to an element of a []T
 				addHeapLeaves("H", el, 0, len(flatten(el)))
+				addHeapLeaves("M", el, 0, len(flatten(el)))
 			}
 		}
 	}
@@ -682,6 +691,46 @@ func (x *Exec) havocLoop(st *State, li *LoopInfo) {
 	}
 	// values computed inside the loop body in a previous iteration are not visible anyway (SSA regs
 	// are redefined before use), nothing to do for regs.
+	snap := &loopSnap{logLen: len(st.writeLog), heap: map[string]Term{}, cells: map[int]Value{}, heapSet: heapSet, cellSet: cellSet, all: all || (li.Spec != nil && li.Spec.HasMod)}
+	for k, v := range st.heap {
+		snap.heap[k] = v
+	}
+	for k, v := range st.cells {
+		snap.cells[k] = v
+	}
+	if st.loopSnap == nil {
+		st.loopSnap = map[int]*loopSnap{}
+	}
+	st.loopSnap[li.Header.Index] = snap
+}
+
+// checkHavocSet is the engine's own safety net: at a back edge every heap array and local cell that
+// differs from its value at the loop head must have been in the set the loop head forgot. A miss would
+// make the loop summary unsound, so it is an engine error (exit 2), never a pass.
+func (x *Exec) checkHavocSet(st *State, li *LoopInfo) {
+	snap := st.loopSnap[li.Header.Index]
+	if snap == nil || snap.all {
+		return
+	}
+	for _, n := range st.writeLog[snap.logLen:] {
+		if !snap.heapSet[n] {
+			panic(unsupported{fmt.Sprintf("UNSOUND-HAVOC: %s loop %d writes %s, which the loop head did not forget", x.funcName(), li.K, n)})
+		}
+	}
+	for c, old := range snap.cells {
+		if snap.cellSet[c] {
+			continue
+		}
+		cur, ok := st.cells[c]
+		if !ok || len(cur.L) != len(old.L) {
+			continue
+		}
+		for k := range cur.L {
+			if cur.L[k].S != old.L[k].S {
+				panic(unsupported{fmt.Sprintf("UNSOUND-HAVOC: %s loop %d writes local cell %d, which the loop head did not forget", x.funcName(), li.K, c)})
+			}
+		}
+	}
 }
 
 // bumpTop introduces a new allocation top >= the current one (somebody else may have allocated).
